@@ -781,8 +781,6 @@ def p_edge_space_text(case):
     its inline container: such a space can only come from an entity or an escape and is stripped, or turned
     into a line break by wrapping, on the way back"""
     for t in texts(case.t1):
-        if under(t, ("TableCell",)):
-            continue
         s = t.lit()
         pv, nx = t.prev(), t.next()
         if s[:1] in (b" ", b"\t") and (pv is None or pv.kind in ("SoftBreak", "LineBreak")):
@@ -925,8 +923,18 @@ def p_tasklist_bracket_text(case):
     if not case.opts.get("tasklist"):
         return False
     for it in case.nodes("Item"):
-        if it.ch and it.ch[0].kind == "Paragraph" and it.ch[0].ch and it.ch[0].ch[0].kind == "Text" and _TASK_TEXT.match(it.ch[0].ch[0].lit()):
-            return True
+        if it.ch and it.ch[0].kind == "Paragraph" and it.ch[0].ch and it.ch[0].ch[0].kind == "Text":
+            # the text at the start of the paragraph, over plain Text and (with wrapping: written as a space) soft breaks
+            lead = b""
+            for c in it.ch[0].ch:
+                if c.kind == "Text":
+                    lead += c.lit()
+                elif c.kind == "SoftBreak" and case.opts.get("width"):
+                    lead += b" "
+                else:
+                    break
+            if _TASK_TEXT.match(lead):
+                return True
     return False
 
 
@@ -1114,6 +1122,49 @@ def p_table_cell_title_newline(case):
     """a link or image inside a table cell whose title holds a newline (possible through a reference definition):
     it is written raw and ends the table row"""
     return any(b"\n" in l.lit(1) and under(l, ("TableCell",)) for l in case.nodes(("Link", "Image")))
+
+
+def p_autolink_html_block_start(case):
+    """an autolink whose text starts with `?` or `!` + capital letter (an e-mail address such as ?@b) is the first
+    thing on a line: written `<?@b>` it is the start of an HTML block (start conditions 3 and 4), which
+    interrupts the paragraph.  In the source the line was indented four or more columns, where no HTML block starts"""
+    for l in case.nodes("Link"):
+        pv = l.prev()
+        if is_autolink_node(l) and re.match(rb"^(\?|![A-Z])", l.ch[0].lit()) and (pv is None or pv.kind in ("SoftBreak", "LineBreak")):
+            return True
+    return False
+
+
+def p_url_control_char(case):
+    """a link or image destination holds an ASCII control character that is not white space (from a numeric
+    entity): the Url mode of outc percent-encodes white space only, and CommonMark allows no control character
+    in a destination, so the link is text on re-parse"""
+    return any(any((c < 0x20 and c not in (9, 10, 11, 12, 13)) or c == 0x7f for c in l.lit(0)) for l in case.nodes(("Link", "Image")))
+
+
+def p_title_backslash_end(case):
+    """a link or image title ends in a backslash and a `"` follows later in the same paragraph: the title is
+    written `"..\\\\"` and scanners::link_title takes the longest match, reading the final `\\"` as an escaped
+    quote (its `[^"]` alternative also matches a backslash) and running on to the next `"`"""
+    for l in case.nodes(("Link", "Image")):
+        if not l.lit(1).endswith(b"\\"):
+            continue
+        h = l
+        while h.parent is not None and not is_inline_holder(h):
+            h = h.parent
+        seen = False
+        for d in h.walk():
+            if d is l:
+                seen = True
+            elif seen and not under_node(d, l):
+                if (d.kind in ("Link", "Image") and d.lit(1)) or (d.kind in ("Text", "HtmlInline", "Raw") and b'"' in d.lit()) or (d.kind == "Code" and b'"' in d.lit(1)) \
+                        or (d.kind in ("Link", "Image") and b'"' in d.lit(0)):
+                    return True
+    return False
+
+
+def under_node(n, a):
+    return any(x is a for x in n.ancestors())
 
 
 def p_title_newline_space(case):
@@ -1317,6 +1368,9 @@ CLASSES = {
     "title_newline_space": _c(p_title_newline_space),
     "emph_in_emph_same_delim": _c(p_emph_in_emph_same_delim),
     "table_cell_title_newline": _c(p_table_cell_title_newline),
+    "autolink_html_block_start": _c(p_autolink_html_block_start),
+    "url_control_char": _c(p_url_control_char),
+    "title_backslash_end": _c(p_title_backslash_end),
 }
 
 
